@@ -106,6 +106,23 @@ class Dumper {
 		return I;
 	}
 
+	json::Array macroStack(SourceLocation L)
+	{
+		json::Array Stack;
+		SourceLocation Cur = L;
+		int guard = 0;
+		while(Cur.isMacroID() && guard++ < 64) {
+			if(SM.isMacroArgExpansion(Cur)) {
+				Cur = SM.getImmediateSpellingLoc(Cur);
+			} else {
+				StringRef N = Lexer::getImmediateMacroName(Cur, SM, LO);
+				Stack.push_back(N.str());
+				Cur = SM.getImmediateExpansionRange(Cur).getBegin();
+			}
+		}
+		return Stack;
+	}
+
 	void setLoc(json::Object &O, SourceLocation L)
 	{
 		if(L.isInvalid())
@@ -233,6 +250,11 @@ class Dumper {
 		json::Object O;
 		O["k"] = S->getStmtClassName();
 		setLoc(O, S->getBeginLoc());
+		if(S->getEndLoc().isValid() && S->getEndLoc().isMacroID()) {
+			json::Array E = macroStack(S->getEndLoc());
+			if(!E.empty())
+				O["me"] = std::move(E);
+		}
 		json::Array Ch;
 		bool childrenDone = false;
 
